@@ -26,7 +26,7 @@ def _rec_cli(case):
 
 
 def _cost(r):
-    return (len(r.get("close", [])) + len(r["atoms"]) ** 2 // 8 + 1) * len(r.get("results", [1]))
+    return (len(r.get("close", [])) + len(r.get("atoms", [])) ** 2 // 8 + 1) * len(r.get("results", [1]))
 
 
 def _deal(recs, chunks):
@@ -84,11 +84,27 @@ def build_cases(t, palette, pairs, seed):
             if len(set(names)) != len(names):
                 continue        # repeated atom name in one residue: the READER would merge them (C08's subject)
         fmt = "cif"
-        if rng.random() < 0.5:      # PDB cannot express an absent occupancy: write it as full there
+        twin = any(r.get("label_chain") for r in st["res"])     # only mmCIF can tell the two mates apart
+        if not twin and rng.random() < 0.5:      # PDB cannot express an absent occupancy: write it as full there
             st2 = {"res": st["res"], "atoms": [dict(a, occ=100 if a["occ"] is None else a["occ"]) for a in st["atoms"]]}
             if clash.can_pdb(st2):
                 st, fmt = st2, "pdb"
         cli_cases.append({"id": f"main-{seed}-{k}", "st": st, "fmt": fmt, "opt": opt, "cutoff": cutoff, "src": s})
+    # ---- symmetry mates: residue 2 is a shifted copy of residue 1 with the same author identity (only the label
+    # chain differs), so two different clashes print exactly alike; report, CSV and library must agree on the count
+    for k in range(max(6, ncli // 12)):
+        ab = clash.multi_abstract(rng, palette, dense=True)
+        for tt in ab["test"]:
+            tt["r"] = 1
+        ab["res"][1]["nuc"] = ab["res"][0]["nuc"]
+        ab["res"][1]["twin"] = True
+        ab["res"][1]["lig"] = ab["res"][1]["ins"] = False
+        st = clash.materialise(ab, k)
+        names = [(a["r"], a["name"]) for a in st["atoms"]]
+        if len(set(names)) != len(names):
+            continue
+        cli_cases.append({"id": f"mates-{seed}-{k}", "st": st, "fmt": "cif", "opt": 1 + (16 if k % 2 else 0),
+                          "cutoff": cutoff, "src": {"ab": ab, "shuffle": k}})
     return lib_cases, cli_cases, dropped
 
 
@@ -216,7 +232,7 @@ def replay(doc):
         src = case["src"]
         st = clash.materialise(src["ab"], src["shuffle"]) if "ab" in src else clash.corpus_struct(src["corpus"], palette)
         cutoff = palette["cutoff"] / 100
-        if case["id"].startswith("main"):
+        if case["id"].startswith(("main", "mates")):
             base = case["id"].rsplit("/", 1)[0]
             trio = clash.record_cli({"id": base, "st": st, "fmt": src["fmt"], "opt": src["opt"], "cutoff": cutoff,
                                      "src": {k: v for k, v in src.items() if k not in ("fmt", "opt")}}, sc.dir)
